@@ -7,38 +7,6 @@ Local Open Scope list_scope.
 (* ================================================================================================ *)
 Definition no_slash (s : string) : Prop := contains "/"%char s = false.
 
-Lemma srev_acc_twice s : forall a b, srev_acc (srev_acc s a) b = srev_acc a (s ++ b)%string.
-Proof.
-  induction s as [|c s IH]; intros a b; simpl; [reflexivity|]. rewrite IH. reflexivity.
-Qed.
-
-Lemma srev_involutive s : srev (srev s) = s.
-Proof. unfold srev. rewrite srev_acc_twice. simpl. apply sapp_nil_r. Qed.
-
-(* splitting text that has no separator before its first separator *)
-Lemma split_on_acc_prefix c a : forall acc rest,
-  contains c a = false ->
-  split_on_acc c (a ++ String c rest)%string acc = srev (srev_acc a acc) :: split_on_acc c rest "".
-Proof.
-  induction a as [|x a IH]; intros acc rest H; simpl in *.
-  - rewrite Ascii.eqb_refl. reflexivity.
-  - apply orb_false_iff in H as [H1 H2]. rewrite H1. rewrite IH; [reflexivity|assumption].
-Qed.
-
-Lemma split_on_acc_last c a : forall acc,
-  contains c a = false -> split_on_acc c a acc = [srev (srev_acc a acc)].
-Proof.
-  induction a as [|x a IH]; intros acc H; simpl in *; [reflexivity|].
-  apply orb_false_iff in H as [H1 H2]. rewrite H1. now apply IH.
-Qed.
-
-Lemma split_prefix c a rest : contains c a = false -> split_on c (a ++ String c rest)%string = a :: split_on c rest.
-Proof.
-  intro H. unfold split_on. rewrite split_on_acc_prefix; [|assumption]. f_equal. fold (srev a). apply srev_involutive.
-Qed.
-Lemma split_last c a : contains c a = false -> split_on c a = [a].
-Proof. intro H. unfold split_on. rewrite split_on_acc_last; [|assumption]. f_equal. apply srev_involutive. Qed.
-
 Lemma path_unambiguous full name :
   no_slash full -> no_slash name -> parse_path (mk_path full name) = Some (full, name).
 Proof.
